@@ -105,7 +105,9 @@ GenAsts ==
 
 StyleFor(x) == LET n == Len(Bare(x)) + Size(x) + Cardinality(AtomSet(x))
                IN [sp |-> n % 4, wrap |-> (n % 3 = 0)]
-GenStyles(x) == IF x = Empty THEN Styles(x) ELSE IF Size(x) <= 2 THEN AllStyles ELSE {StyleFor(x)}
+GenStyles(x) == IF x = Empty THEN Styles(x) ELSE IF Size(x) <= 2 THEN AllStyles
+                ELSE IF Tier = "quick" THEN {StyleFor(x)}
+                ELSE {StyleFor(x), [sp |-> (StyleFor(x).sp + 2) % 4, wrap |-> ~StyleFor(x).wrap]}
 GenRows(x) == IF x = Empty THEN CaseRows(And(<<Has(pa), Cmp(pab, "==", "num")>>)) ELSE CaseRows(x)
 
 Lims(al) == IF ~Determined(al) THEN <<>>
